@@ -61,6 +61,7 @@ def run_value_conformance(c, kind, trace_module, gen_module, gen_cfg, gen_subst,
     events = ev1 + ev2
     # interleave long and short events so that shards have similar cost
     order = sorted(range(len(events)), key=lambda i: len(events[i]))
+    shards = int(os.environ.get("VERIF_SHARDS", shards))     # development on a shared box: fewer JVMs
     nsh = shards
     perm = [i for s in range(nsh) for i in order[s::nsh]]
     events = [events[i] for i in perm]
